@@ -379,6 +379,103 @@ Proof.
     rewrite H2. split; [|exact I]. lra.
 Qed.
 
+(* ---- kernel objects (forward, diagonal, diagonal_depends_on_X) of Matern / product / range / warped /
+   exponential-decay kernels over arbitrary consistent base kernels: diagonal(x) = forward(x, x), and the flag
+   is sound ("independent of X" => the diagonal is the same for every row).  The flag logic of the model is the
+   implementation's: product = ANY factor depends on X; WarpedKernel.diagonal warps first iff the inner diagonal
+   depends on X.  A Matern leaf is exactly consistent for square-root jitter 0 (c08_kernel_diagonal gives the
+   factor (1+sqrt j)exp(-sqrt j) otherwise). *)
+Theorem c08_kernel_diag_consistent :
+  forall e : kexpr NumR, leaves_ok e -> DiagOK (keval NumR e) /\ FlagOK (keval NumR e).
+Proof. exact keval_ok. Qed.
+Print Assumptions c08_kernel_diag_consistent.
+
+(* diagonal(X) is the diagonal of forward(X, X) *)
+Theorem c08_kernel_diagonal_of_matrix :
+  forall (k : kern NumR) (X : list (list R)), DiagOK k ->
+    forall i, (i < length X)%nat ->
+      nth i (kdiagonal NumR k X) 0 = entry (kmatrix NumR (k_fwd NumR k) X X) i i.
+Proof. exact kdiagonal_is_diag. Qed.
+Print Assumptions c08_kernel_diagonal_of_matrix.
+
+(* the flag logic is needed: a product that reported "independent of X" when only ONE factor is (all instead
+   of any) breaks diagonal = diag(forward) once wrapped in a WarpedKernel (witness) *)
+Theorem c08_kernel_flag_logic_needed :
+  exists (k1 k2 : kern NumR) (jit : R) (bs : list (wblock NumR)) (x : list R),
+    DiagOK k1 /\ FlagOK k1 /\ DiagOK k2 /\ FlagOK k2 /\
+    let bad := mkK NumR (k_fwd NumR (kproduct NumR k1 1 k2)) (k_diag NumR (kproduct NumR k1 1 k2))
+                   (andb (k_dep NumR k1) (k_dep NumR k2)) in
+    k_diag NumR (kwarped NumR bad jit bs) x <> k_fwd NumR (kwarped NumR bad jit bs) x x.
+Proof. exact product_flag_all_refuted. Qed.
+Print Assumptions c08_kernel_flag_logic_needed.
+
+Example c08_kernel_expr_example :
+  leaves_ok (KWarp NumR (KProd NumR (KMat NumR [2] 3 0) 1 (KExpD NumR (KMat NumR [1] 1 0) 1 (/ 2) 1 1 (/ 2) (/ 3)))
+                   (/ 10) [mkW NumR 2 3 [2] [/ 2]]).
+Proof. simpl. repeat split; reflexivity. Qed.
+
+(* ---- GaussianProcessRegression as a state machine (every carrier N): after ANY sequence of fit /
+   set_params / reset_params / recompute_states whose LAST step is a fit or a recompute_states on data d,
+   the posterior state is gp_post(live parameters, d): independent of the previous state (same dict object or
+   not, C08-J), and also when every optimiser restart failed (fitted = None, C08-H). *)
+Theorem c08_model_state_fresh :
+  forall (N : Num) (jit : T N) (m : gmodel N) (ops : list (gop N)) (o : gop N) (d : gdata N),
+    op_data N o = Some d ->
+    Fresh N jit (grun N jit m (ops ++ [o])) /\
+    gm_state N (grun N jit m (ops ++ [o])) =
+      Some (d, gp_post N jit (gm_params N (grun N jit m (ops ++ [o]))) d).
+Proof. exact grun_last_compute_fresh. Qed.
+Print Assumptions c08_model_state_fresh.
+
+Theorem c08_model_fit_failed :
+  forall (N : Num) (jit : T N) (m : gmodel N) (d : gdata N) (prepared : gparams N),
+    gstep N jit m (GFit N d prepared None) = mkGM N prepared (Some (d, gp_post N jit prepared d)).
+Proof. exact gfit_failed. Qed.
+Print Assumptions c08_model_fit_failed.
+
+(* a Fresh model predicts the dense posterior of its data under the LIVE parameters: mean = m + k*^T alpha,
+   variance = max(scale - k*^T beta, floor) for every alpha, beta solving the dense systems with
+   A = K(X,X; live parameters) + noise I *)
+Theorem c08_model_predict_dense :
+  forall (jit floor : R) (m : gmodel NumR) (d : gdata NumR) (L : list (list R)) (P Xt : list (list R)),
+    gm_state NumR m = Some (d, (L, P)) -> Fresh NumR jit m ->
+    let p := gm_params NumR m in
+    let A := gp_sysmat NumR jit p d in
+    Square A -> Symmetric A -> chol_ok A [] -> length (gd_y NumR d) = length (gd_X NumR d) ->
+    length A = length (gd_X NumR d) ->
+    forall means vars, gpredict NumR jit floor m Xt = Some (means, vars) ->
+    forall t (alpha beta : list R), (t < length Xt)%nat ->
+      length alpha = length A -> length beta = length A ->
+      mv NumR A alpha = vsub NumR (gd_y NumR d) (map (fun _ => gp_mean NumR p) (gd_X NumR d)) ->
+      mv NumR A beta = nth t (gp_kcols NumR jit p d Xt) [] ->
+      mean_entry means t 0 = gp_mean NumR p + dot NumR (nth t (gp_kcols NumR jit p d Xt) []) alpha /\
+      nth t vars 0 = Rmax (gp_cs NumR p - dot NumR (nth t (gp_kcols NumR jit p d Xt) []) beta) floor.
+Proof. exact gpredict_dense. Qed.
+Print Assumptions c08_model_predict_dense.
+
+(* non-vacuity: one data point, unit parameters, jitter 0: after set_params + recompute the model is Fresh and
+   every hypothesis of c08_model_predict_dense holds *)
+Example c08_model_example :
+  let p := mkGP NumR [1] 1 0 1 in
+  let d := mkGD NumR [[0]] [1] in
+  let m := grun NumR 0 (mkGM NumR (mkGP NumR [2] 3 1 1) None) [GSet NumR p; GRecompute NumR d] in
+  Fresh NumR 0 m /\ gm_params NumR m = p /\
+  gp_sysmat NumR 0 p d = [[2]] /\ Square [[2]] /\ Symmetric [[2]] /\ chol_ok [[2]] [].
+Proof.
+  cbv zeta.
+  split; [exact (proj1 (c08_model_state_fresh NumR 0 (mkGM NumR (mkGP NumR [2] 3 1 1) None)
+                          [GSet NumR (mkGP NumR [1] 1 0 1)] (GRecompute NumR (mkGD NumR [[0]] [1]))
+                          (mkGD NumR [[0]] [1]) eq_refl))|].
+  split; [reflexivity|].
+  assert (E : gp_sysmat NumR 0 (mkGP NumR [1] 1 0 1) (mkGD NumR [[0]] [1]) = [[2]]).
+  { unfold gp_sysmat, kernel_matrix. cbn [gd_X gp_ib gp_cs gp_noise map].
+    rewrite matern52_self_nojitter. unfold add_diag. simpl. repeat f_equal; lra. }
+  split; [exact E|]. split; [repeat constructor|]. split.
+  - intros i j. unfold entry. destruct i as [|[|i]]; destruct j as [|[|j]]; simpl; try reflexivity;
+      try (destruct j; reflexivity); try (destruct i; reflexivity).
+  - simpl. unfold forward_subst. simpl. split; [lra | exact I].
+Qed.
+
 (* non-vacuity of the warping theorems: two blocks on the non-contiguous ranges (0,1) and (2,3) are
    pairwise disjoint, and coordinate 2 of a 3-vector is transformed by the second block only *)
 Example c08_warp_example :
